@@ -8,6 +8,7 @@
 package main
 
 import (
+	"os"
 	"fmt"
 	"math/rand"
 	"sort"
@@ -109,10 +110,62 @@ func sequence(c *drv.Ctx, ref *workerRef, seed int64, idx int, conf string, nops
 	if err := in.surface(cur, "step", false, nil); err != nil {
 		return err
 	}
+	// every fourth sequence is a scripted "remap chain": the same supervoxels are re-mapped (merge, cleave, merge,
+	// renumber) in three successive versions of one lineage, and the sequence ends with a restart - the in-memory mapping
+	// of each version is then rebuilt from the per-version mutation logs, in whatever order the start-up replays them
+	var script []string
+	if !negative && idx%4 == 3 {
+		script = []string{"merge", "merge", "dag", "cleave", "merge", "cleave", "dag", "merge", "cleave", "renumber", "merge"}
+		nops = len(script)
+		c.Count("remap_chain_sequences", 1)
+	}
 	for in.step = 1; in.step <= nops; in.step++ {
 		open := h.D.Open()
 		if len(open) == 0 {
 			break
+		}
+		forced := ""
+		if len(script) > 0 {
+			forced, script = script[0], script[1:]
+		}
+		if forced == "dag" {
+			v := open[len(open)-1]
+			if err := h.CommitNode(v); err != nil {
+				return err
+			}
+			child, err := h.NewVersionOf(v)
+			if err != nil {
+				return err
+			}
+			in.log("commit %s", in.short(v))
+			in.adopt(child, v)
+			c.Count("dag_moves", 1)
+			continue
+		}
+		if forced != "" {
+			v := open[len(open)-1]
+			var done bool
+			var err error
+			switch forced {
+			case "merge":
+				done, err = in.opMerge(v)
+			case "cleave":
+				done, err = in.opCleave(v)
+			default:
+				done, err = in.opRenumber(v)
+			}
+			if err != nil {
+				return err
+			}
+			if done {
+				if err := in.settle(); err != nil {
+					return err
+				}
+				if err := in.surface(v, "step", false, in.focus(v)); err != nil {
+					return err
+				}
+			}
+			continue
 		}
 		// DAG moves
 		if x := r.Intn(100); x < 22 && len(h.D.Order) < 6 {
@@ -399,6 +452,9 @@ func run(c *drv.Ctx) error {
 			ref := &workerRef{w: w, bin: bin, dir: dir}
 			defer func() { ref.w.Kill() }()
 			for i := wi; i < nseq; i += nw { // static assignment keeps (sequence, configuration) deterministic
+				if o := os.Getenv("C08_ONLY"); o != "" && o != fmt.Sprint(i) { // debugging aid
+					continue
+				}
 				if err := sequence(c, ref, seeds[i], i, conf, nops, false); err != nil {
 					errs <- fmt.Errorf("worker %d sequence %d: %v; stderr: %s", wi, i, err, drv.Trunc(drv.FatalInStderr(ref.w.Stderr()), 600))
 					return
